@@ -41,6 +41,9 @@ pub fn run_case(case: &Case) -> Outcome {
             if fl.outlier {
                 labels.push("far-future-outlier");
             }
+            if fl.huge {
+                labels.push("timestamp>=2^64ns");
+            }
             if fl.cancel_fetched {
                 labels.push("cancel-of-fetched-handle");
             }
@@ -68,7 +71,7 @@ impl Prop for C01 {
     fn assumptions() -> Vec<String> {
         vec![
             "add times >= last fetched time (documented precondition), cancel only with handles returned by add".into(),
-            "times < 2^63 ns; far-future outliers <= 2*10^5 bucket widths ahead (scan cost, not semantics)".into(),
+            "events that are fetched lie <= 2*10^5 bucket widths ahead (scan cost, not semantics); events beyond 2^64 ns are added and cancelled, never fetched".into(),
             "order among equal timestamps is not asserted here (C03)".into(),
         ]
     }
